@@ -34,12 +34,12 @@ LONG_PREFIX = ('x' * 60 + '.') * 3 + 'example.com'   # 190+ chars
 
 
 class Cfg:
-    def __init__(self, name: str, prog: progress.ProgressStorage, base: diffbase.DiffBaseStorage) -> None:
-        self.name, self.prog, self.base = name, prog, base
+    def __init__(self, name: str, prog: progress.ProgressStorage, base: diffbase.DiffBaseStorage, extra: tuple[str, ...] = ()) -> None:
+        self.name, self.prog, self.base, self.extra = name, prog, base, tuple(extra)
 
     def essence(self, raw: dict) -> Any:
         body = bodies.Body(raw)
-        new = self.base.build(body=body, extra_fields=[])
+        new = self.base.build(body=body, extra_fields=list(self.extra))
         return self.prog.clear(essence=new)
 
     def stored(self, raw: dict) -> Any:
@@ -62,6 +62,25 @@ def configs(tier: str) -> list[Cfg]:
                                                            progress.StatusProgressStorage(name='multi')]),
                    diffbase.MultiDiffBaseStorage([diffbase.AnnotationsDiffBaseStorage(prefix='multi.example.com'),
                                                   diffbase.StatusDiffBaseStorage(name='multi')])))
+    return out
+
+
+def configs_with_fields(tier: str) -> list[Cfg]:
+    """Operators with a handler on a field that the framework's own records live in or under (`field='status'`,
+    `field='metadata.annotations'`): the field is restored into the essence, the own records in it must still be invisible."""
+    def multi(order: str) -> diffbase.MultiDiffBaseStorage:
+        parts = {'a': diffbase.AnnotationsDiffBaseStorage(prefix='multi.example.com'), 's': diffbase.StatusDiffBaseStorage(name='multi')}
+        return diffbase.MultiDiffBaseStorage([parts[c] for c in order])
+
+    def multiprog() -> progress.MultiProgressStorage:
+        return progress.MultiProgressStorage([progress.AnnotationsProgressStorage(prefix='multi.example.com'), progress.StatusProgressStorage(name='multi')])
+    out = [Cfg('default+field[metadata.annotations]', progress.SmartProgressStorage(), diffbase.AnnotationsDiffBaseStorage(), extra=('metadata.annotations',)),
+           Cfg('default+field[status]', progress.SmartProgressStorage(), diffbase.AnnotationsDiffBaseStorage(), extra=('status',)),
+           Cfg('status+field[status]', progress.StatusProgressStorage(), diffbase.StatusDiffBaseStorage(), extra=('status',)),
+           Cfg('multi[annotations,status]+field[status]', multiprog(), multi('as'), extra=('status',)),
+           Cfg('multi[status,annotations]+field[status]', multiprog(), multi('sa'), extra=('status',)),
+           Cfg('multi[status,annotations]+field[metadata.annotations]', multiprog(), multi('sa'), extra=('metadata.annotations',)),
+           Cfg('multi[annotations,status]+field[metadata.annotations]', multiprog(), multi('as'), extra=('metadata.annotations',))]
     return out
 
 
@@ -127,10 +146,13 @@ def canon(x: Any) -> str:
 def own_writes(tier: str, stats: Stats) -> list[Violation]:
     viols: dict[str, Violation] = {}
     depth = 2 if tier == 'quick' else 3
-    cfgs = configs(tier)
-    observers = cfgs
+    plain = configs(tier)
+    cfgs = plain + configs_with_fields(tier)
     for cfg in cfgs:
-        ops = operations(cfg)
+        # (an operator that watches a whole stanza sees what OTHERS write there - that is what its user asked for: such
+        # configurations are judged as observers of their own writes only; handler results are the user's own data in status)
+        observers = plain + ([cfg] if cfg.extra else [])
+        ops = [(n, f) for n, f in operations(cfg) if not (cfg.extra and 'status' in cfg.extra and n.startswith('result('))]
         frontier = [s for s in seeds()]
         seen = {canon(s) for s in frontier}
         for d in range(depth):
@@ -385,7 +407,8 @@ def _loop_scenarios(tier: str) -> list[Any]:
             if env.deviations or self.carveouts(env) or env.owes():
                 return []
             out = []
-            essential = [(t, p['name']) for t, k, p in env.obs if k == 'user' and p['name'].startswith(('spec', 'label', 'annotate'))]
+            kinds_of_edit = ('spec', 'label', 'annotate') + (('status',) if self.params.get('status_watched') else ())
+            essential = [(t, p['name']) for t, k, p in env.obs if k == 'user' and p['name'].startswith(kinds_of_edit)]
             calls = [(t, p['id'], p.get('reason')) for t, k, p in env.obs if k == 'call' and p.get('reason') in ('create', 'update')
                      and p['id'] in ('c1', 'u1') and p['outcome'].split(',')[0].split('~')[0] in ('ok', 'perm')]
             want = [('c1', 'create')] + [('u1', 'update')] * len(essential)
@@ -447,6 +470,16 @@ def _loop_scenarios(tier: str) -> list[Any]:
                                            settings={'persistence__consistency_timeout': 5.0}, delays=False, early_user=False, time_dev=False))
                     out.append(C04Loop(handlers=handlers, user=user, horizon=6.0 + 5 * len(ed) + 25, bare=bare, storage=storage, sub=sub,
                                        settings={'persistence__consistency_timeout': 5.0}, delays=False, early_user=False, time_dev=False))
+    # a handler on the whole status stanza while the framework keeps its own records there (status storages), in cycles with retries
+    # (a waiting handler makes the framework "touch" the object): own records and touches are not changes, the user's status edits are
+    for sub in (False, True):
+        for u1 in (['ok'], ['temp', 'ok'], ['temp', 'temp', 'ok']):
+            for ed in ([('spec', 'a', 2)], [('spec', 'a', 2), ('status', 'a', 1)], [('label', 'a', 'l', 'v'), ('spec', 'a', 2)]):
+                user = [(1.0, 'create', 'a')] + [(6.0 + 12 * i, *a) for i, a in enumerate(ed)]
+                handlers = [dict(id='c1', on='create', script=['ok']), dict(id='u1', on='update', script=u1),
+                            dict(id='fst', on='update', field='status', script=['ok'])]
+                out.append(C04Loop(handlers=handlers, user=user, horizon=6.0 + 12 * len(ed) + 30, bare=False, storage='status', sub=sub, narrowed=True,
+                                   status_watched=True, settings={'persistence__consistency_timeout': 5.0}, delays=False, early_user=False, time_dev=False))
     return out
 
 
